@@ -97,6 +97,27 @@ Theorem gen_range_outside_unbuildable_partial : forall G gmul gone ginv PKg PKh 
 Proof. exact gen_range_outside_unbuildable_l. Qed.
 Print Assumptions gen_range_outside_unbuildable_partial.
 
+(* pengbaorange/algorithm.py: every challenge (s, t) that create_challenges can draw - _safe_rndint keeps drawing
+   while the value is below LARGE_INTEGER, so LARGE_INTEGER itself can come out - is answered honestly by
+   create_challenge_response, never with the random garbage it keeps for challenges that are too small *)
+Theorem challenge_domain_is_answered : forall G PKg gmodulus rq s t priv rq',
+  g_pb_create_challenges G PKg gmodulus rq = Ok (s, t) ->
+  g_pb_create_challenge_response G PKg gmodulus priv s t rq' = Ok (generate_response priv s t).
+Proof. exact challenge_domain_is_answered_w. Qed.
+Print Assumptions challenge_domain_is_answered.
+
+(* the whole honest exchange over the translated code: what the builder returns, any challenge the verifier can
+   draw, the prover's answer to it: the verifier's check accepts *)
+Theorem gen_honest_range_exchange_accepted : forall G gmul gone ginv geqb PKg PKh Hsh gmodulus,
+  abelian_group G gmul gone ginv -> (forall x, geqb x x = true) ->
+  forall v a b bitspace rq sec pub priv rest crq s t rq',
+  g_create_attest_pair G gmul gone ginv PKg PKh Hsh gmodulus v a b bitspace rq sec = Ok ((pub, priv), rest) ->
+  0 <= p_m2 priv -> g_pb_create_challenges G PKg gmodulus crq = Ok (s, t) ->
+  exists x y u w, g_pb_create_challenge_response G PKg gmodulus priv s t rq' = Ok (x, y, u, w) /\
+                  g_range_check G gmul gone ginv geqb PKg PKh Hsh pub a b s t x y u w = Ok true.
+Proof. exact gen_honest_range_exchange_accepted_w. Qed.
+Print Assumptions gen_honest_range_exchange_accepted.
+
 (* ================================================================== the verifier's bookkeeping, over the translated handler *)
 
 (* an answer to a challenge that is not outstanding (never sent, already answered, a duplicate) changes nothing *)
@@ -237,3 +258,10 @@ Example c18x_liar_is_final :
     [(50, 0, (false, 0, [])); (7, 1, (false, 0, []))]
   = Ok (MkVS [] false [7] [[7]] [], [VCallback [99]]).
 Proof. vm_compute. reflexivity. Qed.
+
+(* the boundary is real: the verifier can draw exactly LARGE_INTEGER (after rejecting 7), and the prover answers it *)
+Example c18x_boundary_challenge :
+  g_pb_create_challenges ev ev_g (fun _ => 1000000) [[7; 32765]; [32766]] = Ok (32765, 32766)
+  /\ g_pb_create_challenge_response ev ev_g (fun _ => 1000000) (MkPriv 1 2 3 4 5 6) 32765 32766 [] = Ok (generate_response (MkPriv 1 2 3 4 5 6) 32765 32766)
+  /\ g_pb_create_challenge_response ev ev_g (fun _ => 1000000) (MkPriv 1 2 3 4 5 6) 32764 32766 [[40000]; [40001]; [40002]; [40003]] = Ok (40000, 40001, 40002, 40003).
+Proof. vm_compute. repeat split. Qed.
